@@ -463,6 +463,18 @@ func (o *ObjectSchema) Validate(data any) error {
 }
 
 func (o *ObjectSchema) applySubObjectDefaultValues(propertyID string, property *PropertySchema, rawData map[string]any) {
+	o.expandSubObjectDefaultValues(propertyID, property, rawData, nil)
+}
+
+// expandSubObjectDefaultValues does the work of applySubObjectDefaultValues. expanding holds the referenced
+// objects whose defaults are being filled in on the way down: an object that refers back to one of them
+// (a map-backed object is not stopped by the pointer check below) is not expanded again, which would never end.
+func (o *ObjectSchema) expandSubObjectDefaultValues(
+	propertyID string,
+	property *PropertySchema,
+	rawData map[string]any,
+	expanding []Object,
+) {
 	reflectedType := property.ReflectedType()
 	if reflectedType.Kind() == reflect.Pointer {
 		return
@@ -471,6 +483,12 @@ func (o *ObjectSchema) applySubObjectDefaultValues(propertyID string, property *
 	switch property.TypeID() {
 	case TypeIDRef:
 		subObject = property.Type().(Ref).GetObject()
+		for _, outer := range expanding {
+			if isSameObject(outer, subObject) {
+				return
+			}
+		}
+		expanding = append(expanding[:len(expanding):len(expanding)], subObject)
 	case TypeIDObject:
 		subObject = property.Type().(Object)
 	default:
@@ -489,11 +507,18 @@ func (o *ObjectSchema) applySubObjectDefaultValues(propertyID string, property *
 		data[k] = v
 	}
 	for subPropertyID, subProperty := range subObject.Properties() {
-		o.applySubObjectDefaultValues(subPropertyID, subProperty, data)
+		o.expandSubObjectDefaultValues(subPropertyID, subProperty, data, expanding)
 	}
 	if len(data) != 0 {
 		rawData[propertyID] = data
 	}
+}
+
+// isSameObject tells whether two objects are one and the same schema value (not merely equal ones: objects of
+// different scopes may carry the same ID and the same properties).
+func isSameObject(a Object, b Object) bool {
+	av, bv := reflect.ValueOf(a), reflect.ValueOf(b)
+	return av.Kind() == reflect.Pointer && bv.Kind() == reflect.Pointer && av.Pointer() == bv.Pointer()
 }
 
 func (o *ObjectSchema) convertData(v reflect.Value) (map[string]any, error) {
